@@ -1,11 +1,60 @@
 #!/usr/bin/env python3
-"""Regenerates GeohashCfgGen.v from the _NIEMEYER_CONFIG tables of <repo>/geostructures/geohash.py.
+"""Regenerates, from <repo>/geostructures/geohash.py, the two generated files of property C11:
 
+(1) main(repo, out)        -> GeohashCfgGen.v : the _NIEMEYER_CONFIG tables.
 The module is imported from the tree under check (a fresh interpreter, so that the tables are
 the ones of THAT tree and not of a module cached in the harness process) and the tables are
 dumped as Gallina literals: masks, alphabet (code points), inverse map (sorted by key: a dict
 has no duplicate keys, so the sorted association list denotes the same map), ranges (floats as
-exact fractions), and the set of supported bases as a lookup function."""
+exact fractions), and the set of supported bases as a lookup function.
+
+(2) main_codec(repo, out)  -> GeohashGen.v : the codec FUNCTIONS, re-translated from the source text
+  _decode_niemeyer        -> g_decode_niemeyer_for_mask        one iteration of `for mask in config['bits']`
+                             g_decode_niemeyer_for_character   one iteration of `for character in geohash` (res: it can raise)
+                             g_decode_niemeyer                 initialisation + loop + the centre
+  _coord_to_niemeyer      -> g_coord_to_niemeyer_cond / _step  the `while` condition / body on the loop state
+                             g_coord_to_niemeyer               base check + initialisation + loop + `return geohash`
+  _get_niemeyer_subhashes -> g_get_niemeyer_subhashes
+  niemeyer_to_geobox      -> g_niemeyer_to_geobox              (Section GeoboxGen, variable mk_coordinate)
+  NiemeyerHasher.__init__ -> g_hasher_init
+(NiemeyerHasher.hash_coordinates and the rest of the class are translated by tools/gen_flood.py, property C12.)
+
+tools/translate.py is used unchanged; this file SUBCLASSES its translator (TrG).  TrG has its own statement
+translator (imperative code: every loop is a state transformer over the tuple of the variables the loop assigns,
+in the order of their first binding in the function) and accepts, each only in the exact shape given:
+
+  G1  X = [a, b]  (two floats)       -> the pair (a, b) : Q * Q;  X[0] / X[1] -> fst X / snd X;
+      X[0] = e                       -> let X := (e, snd X) in ...   (X[1] likewise).  A pair is never aliased: `Y = X` abstains.
+  G2  config['bits'|'charset'|'inverse'|'min_x'|...]   -> the field of the record GeohashM.cfg
+      `base in _NIEMEYER_CONFIG`     -> py_config_has base;   config = _NIEMEYER_CONFIG[base]  -> match py_config_get base
+                                        with None => Err KeyError | Some config => ...  (the tables of GeohashCfgGen.v)
+      v = D[k]  (D a dict field)     -> match py_dict_get D k with None => Err KeyError | Some v => ...
+      L[i]  (tuple / str by an int)  -> py_index L i  (IndexError and negative indices are NOT modelled; GeohashGenEq proves
+                                        0 <= bit < len(bits) along the loop, C11's cfg_ok gives the alphabet index its range)
+  G3  float arithmetic over Q: + - * exact; a / b -> py_fdiv a b = Qred (a / b) (the quotient in lowest terms, as the model
+      keeps it; Qred q == q); a > b -> py_fgt, < <= >= likewise; int: + - * & | and comparisons over Z
+  G4  x op= e                        -> let x := x op e in ...;   a, b = e1, e2 (no ei mentions a target) -> two lets;
+      a, b = c.to_float()            -> let '(a, b) := c in ...;  a, b, c, d = _decode_niemeyer(..) -> match ... with Err/Ok
+  G5  s = '' ; s += ch ; s + ch      -> a str is the list of its code points; ord(ch) -> ch; ch in s -> py_char_in ch s;
+      len(L)                         -> py_len L
+  G6  for x in XS: BODY              -> fold_left (hoisted body) XS state, or py_for_res when BODY contains `raise`
+                                        (`if c: raise E` -> if c then Err E else ...)
+      if c: A else: B   inside a loop -> let 'state := if c then A;state else B;state in ...   (a branch may bind new
+                                        locals, which die with the branch, and may assign state variables only)
+  G7  while c: BODY                  -> the two hoisted definitions _cond/_step and
+                                        match py_while cond step fuel state with None => None | Some state => ... end.
+      FUEL: the generated function takes an extra first argument fuel : nat (Python has none) and returns an option
+      (None = fuel exhausted); GeohashGenEq proves that every fuel > length * len(bits) gives Some of the model's value.
+  G8  {e for x in S}                 -> py_set_of_list (map (fun x => e) S): a set is the duplicate-free list of its
+                                        elements in first-insertion order
+  G9  GeoBox(nw, se, dt=.., properties=..) -> (nw, se)   (dt and properties are not part of C11's model);
+      Coordinate(x, y) -> the Section variable mk_coordinate x y (instantiated with GeohashM.coordinate in GeohashGenEq)
+  G10 __init__ made of `self.f = e` only, fields exactly {length, base} -> mkhasher
+Anything else abstains (comment in the generated file; the GenEq lemmas about that function then fail).
+
+Datatype abstraction: float -> Q (exact: the bisection midpoints are dyadic, DESIGN section 3), str -> list Z of code
+points, a character -> Z, Coordinate -> Q * Q (longitude, latitude), config dict -> GeohashM.cfg, exceptions -> Err kind."""
+import ast
 import json
 import os
 import subprocess
@@ -69,5 +118,742 @@ def main(repo, out):
     return rep
 
 
+# ====================================================================================================================
+# (2) the codec functions
+# ====================================================================================================================
+sys.path.insert(0, os.path.dirname(os.path.abspath(__file__)))
+from translate import Env, FnSpec, Tr, Abstain, find_def, fail   # noqa: E402
+
+CODEC_HEADER = """(* GENERATED by tools/gen_geohash.py (main_codec) from geostructures/geohash.py -- do not edit.
+   float -> Q (exact arithmetic; a / b -> Qred (a / b), the same rational in lowest terms); str -> list Z of code points;
+   character -> Z; Coordinate -> Q * Q; config dict -> GeohashM.cfg, _NIEMEYER_CONFIG -> the tables of GeohashCfgGen.v;
+   a two-element list of floats -> a pair; a dict -> its association list; a set -> the duplicate-free list of its elements
+   in insertion order; exceptions -> Err kind; IndexError / negative indices of L[i] are not modelled (GeohashGenEq proves the
+   index range along the loop); GeoBox(nw, se, dt, properties) -> (nw, se); Coordinate(x, y) -> Section variable;
+   the while loop takes an explicit fuel (None = fuel exhausted). *)
+From Coq Require Import QArith Qreduction.
+From GV Require Import Prelude GeohashM.
+From GVgen Require GeohashCfgGen.
+Open Scope Z_scope.
+
+Definition py_config_get (base : Z) : option cfg := GeohashCfgGen.cfg_of_base base.          (* _NIEMEYER_CONFIG[base] *)
+Definition py_config_has (base : Z) : bool :=                                                (* base in _NIEMEYER_CONFIG *)
+  match py_config_get base with Some _ => true | None => false end.
+Fixpoint py_dict_get (d : list (Z * Z)) (k : Z) : option Z :=                                (* d[k]; None = KeyError *)
+  match d with
+  | [] => None
+  | (k', v) :: d' => if k =? k' then Some v else py_dict_get d' k
+  end.
+Definition py_index (l : list Z) (i : Z) : Z := nth (Z.to_nat i) l 0.                        (* l[i], 0 <= i < len(l) *)
+Definition py_len {A} (l : list A) : Z := Z.of_nat (length l).
+Definition py_char_in (ch : Z) (s : list Z) : bool := existsb (Z.eqb ch) s.                  (* ch in s, ch one character *)
+Definition py_fdiv (a b : Q) : Q := Qred (a / b).                                            (* a / b *)
+Definition py_fgt (a b : Q) : bool := negb (Qle_bool a b).                                   (* a > b *)
+Definition py_flt (a b : Q) : bool := negb (Qle_bool b a).                                   (* a < b *)
+Definition py_fge (a b : Q) : bool := Qle_bool b a.                                          (* a >= b *)
+Definition py_fle (a b : Q) : bool := Qle_bool a b.                                          (* a <= b *)
+Definition py_str_eqb : list Z -> list Z -> bool := list_eqb Z.eqb.
+Fixpoint py_set_of_list (l : list (list Z)) (acc : list (list Z)) : list (list Z) :=         (* set(l), insertion order *)
+  match l with
+  | [] => acc
+  | x :: l' => py_set_of_list l' (if existsb (py_str_eqb x) acc then acc else acc ++ [x])
+  end.
+(* for x in xs: s = body(s, x), where body may raise *)
+Fixpoint py_for_res {S A} (body : S -> A -> res S) (xs : list A) (s : S) : res S :=
+  match xs with
+  | [] => Ok s
+  | x :: xs' => match body s x with Ok s' => py_for_res body xs' s' | Err e => Err e end
+  end.
+(* while cond(s): s = step(s)     None: fuel exhausted *)
+Fixpoint py_while {S} (cond : S -> bool) (step : S -> S) (fuel : nat) (s : S) : option S :=
+  match fuel with
+  | O => None
+  | Datatypes.S f => if cond s then py_while cond step f (step s) else Some s
+  end.
+Record hasher := mkhasher { h_length : Z; h_base : Z }.
+"""
+
+SEC_GEOBOX = """
+Section GeoboxGen.
+  Variable mk_coordinate : Q -> Q -> Q * Q.                          (* Coordinate(lon, lat), bounded (C08) *)
+"""
+
+CFG_FIELDS = {'bits': ('bits', ('list', 'Z')), 'charset': ('charset', 'str'), 'inverse': ('inverse', ('dict', 'Z', 'Z')),
+              'min_x': ('minx', 'Q'), 'max_x': ('maxx', 'Q'), 'min_y': ('miny', 'Q'), 'max_y': ('maxy', 'Q')}
+GTG = {'Z': 'Z', 'Q': 'Q', 'bool': 'bool', 'str': 'list Z', 'char': 'Z', 'cfg': 'cfg', 'ival': '(Q * Q)', 'coord': '(Q * Q)',
+       'gbox': '((Q * Q) * (Q * Q))', 'hasher': 'hasher'}
+CMP_Q = {ast.Gt: '(py_fgt {0} {1})', ast.Lt: '(py_flt {0} {1})', ast.GtE: '(py_fge {0} {1})', ast.LtE: '(py_fle {0} {1})'}
+CMP_ZS = {ast.Lt: '({0} <? {1})%Z', ast.LtE: '({0} <=? {1})%Z', ast.Gt: '({1} <? {0})%Z',
+          ast.GtE: '({1} <=? {0})%Z', ast.Eq: '({0} =? {1})%Z', ast.NotEq: '(negb ({0} =? {1})%Z)'}
+EXCS = ('ValueError', 'KeyError', 'TypeError', 'IndexError')
+RESERVED = {'fst', 'snd', 'bits', 'charset', 'inverse', 'minx', 'maxx', 'miny', 'maxy', 'fuel', 'e_', 'st', 'cfg', 'nth', 'map',
+            'fold_left', 'negb', 'Ok', 'Err', 'Some', 'None', 'Qred', 'mk_coordinate', 'mkhasher', 'end', 'at', 'in', 'fun',
+            'let', 'match', 'with', 'if', 'then', 'else', 'return', 'fix', 'forall', 'exists', 'Type', 'Prop', 'Set', 'mod', '_'}
+
+
+def gt(t):
+    if isinstance(t, str):
+        if t not in GTG:
+            raise Abstain(f'type {t}')
+        return GTG[t]
+    k = t[0]
+    if k == 'res':
+        return f'res ({gt(t[1])})'
+    if k == 'opt':
+        return f'option ({gt(t[1])})'
+    if k in ('list', 'set'):
+        return f'list ({gt(t[1])})'
+    if k == 'dict':
+        return f'list ({gt(t[1])} * {gt(t[2])})'
+    if k == 'pair':
+        return f'({gt(t[1])} * {gt(t[2])})'
+    if k == 'tuple':
+        return '(' + ' * '.join(gt(x) for x in t[1:]) + ')'
+    raise Abstain(f'type {t}')
+
+
+def conc(t):
+    return {'numZ': 'Z', 'numQ': 'Q'}.get(t, t)
+
+
+def names_in(nodes):
+    out = []
+    for n in nodes:
+        for x in ast.walk(n):
+            if isinstance(x, ast.Name) and x.id not in out:
+                out.append(x.id)
+    return out
+
+
+def const_int(n):
+    return n.value if isinstance(n, ast.Constant) and isinstance(n.value, int) and not isinstance(n.value, bool) else None
+
+
+def assigned_names(stmts):
+    """names bound by assignment anywhere in the statements (not loop targets), and the loop targets"""
+    asg, tg = [], []
+
+    def add(lst, x):
+        if x not in lst:
+            lst.append(x)
+
+    def target(t):
+        if isinstance(t, ast.Name):
+            add(asg, t.id)
+        elif isinstance(t, ast.Tuple):
+            for x in t.elts:
+                target(x)
+        elif isinstance(t, ast.Subscript) and isinstance(t.value, ast.Name):
+            add(asg, t.value.id)
+        else:
+            fail(t, 'assignment target')
+    for s in stmts:
+        for x in ast.walk(s):
+            if isinstance(x, ast.Assign):
+                for t in x.targets:
+                    target(t)
+            elif isinstance(x, (ast.AugAssign, ast.AnnAssign)):
+                target(x.target)
+            elif isinstance(x, ast.For):
+                if not isinstance(x.target, ast.Name):
+                    fail(x, 'loop target')
+                add(tg, x.target.id)
+            elif isinstance(x, (ast.NamedExpr, ast.With, ast.Try, ast.Delete, ast.Global, ast.Nonlocal, ast.FunctionDef,
+                                ast.Lambda, ast.ClassDef, ast.Import, ast.ImportFrom, ast.Break, ast.Continue, ast.Return,
+                                ast.comprehension, ast.Yield, ast.Await)):
+                fail(x, 'statement kind inside a loop')
+    return asg, tg
+
+
+class TrG(Tr):
+    def __init__(self, env, spec, fuelled):
+        super().__init__(env, spec)
+        self.fuelled = fuelled
+        self.hoisted = []
+        self.scope = [p for p, _ in spec.params]      # every variable, in the order of its first binding
+        self.frozen = set()                           # variables a branch must not assign (they are not loop state)
+        self.nwhile = 0
+        for p in self.scope:
+            if p in RESERVED:
+                raise Abstain(f'parameter name {p}')
+
+    # ------------------------------------------------------------------ expressions
+    def lit(self, v, t, want):
+        """a value of type t where `want` is expected: literals take the scope of the expected type"""
+        if t in ('numZ', 'numQ'):
+            if want == 'Q':
+                return f'({v})%Q'
+            if want == 'Z' and t == 'numZ':
+                return f'({v})%Z'
+            fail(v, f'literal of kind {t} where {want} is expected')
+        if t != want:
+            fail(v, f'{t} where {want} is expected')
+        return v
+
+    def join(self, ta, tb, n):
+        if ta == tb:
+            return ta
+        for a, b in ((ta, tb), (tb, ta)):
+            if a == 'numZ' and b in ('Z', 'Q', 'numQ'):
+                return b
+            if a == 'numQ' and b == 'Q':
+                return b
+        fail(n, f'type join {ta} {tb}')
+
+    def expr(self, n):
+        if isinstance(n, ast.Name) and n.id not in self.vars and n.id not in self.env.consts:
+            fail(n, 'unknown name')
+        if isinstance(n, ast.Constant):
+            v = n.value
+            if isinstance(v, bool) or v is None:
+                return super().expr(n)
+            if isinstance(v, int):
+                return (str(v) if v >= 0 else f'({v})'), 'numZ'
+            if isinstance(v, float):
+                if v != v or v in (float('inf'), float('-inf')) or not v.is_integer():
+                    fail(n, 'float constant that is not an integer value')
+                return (str(int(v)) if v >= 0 else f'({int(v)})'), 'numQ'
+            if isinstance(v, str) and v == '':
+                return '(@nil Z)', 'str'
+            fail(n, 'constant')
+        if isinstance(n, ast.Tuple):
+            parts = [self.expr(x) for x in n.elts]
+            if len(parts) < 2 or any(t in ('numZ', 'numQ') for _, t in parts):
+                fail(n, 'tuple shape')
+            return '(' + ', '.join(v for v, _ in parts) + ')', ('tuple',) + tuple(t for _, t in parts)
+        if isinstance(n, ast.List):                                                                       # G1
+            parts = [self.expr(x) for x in n.elts]
+            if len(parts) != 2:
+                fail(n, 'list literal that is not a two-element interval')
+            return f'({self.lit(parts[0][0], parts[0][1], "Q")}, {self.lit(parts[1][0], parts[1][1], "Q")})', 'ival!'
+        if isinstance(n, ast.Subscript):
+            if not isinstance(n.ctx, ast.Load):
+                fail(n, 'subscript store')
+            v, t = self.expr(n.value)
+            if t == 'cfg':                                                                                # G2
+                if isinstance(n.slice, ast.Constant) and n.slice.value in CFG_FIELDS and isinstance(n.slice.value, str):
+                    f, ft = CFG_FIELDS[n.slice.value]
+                    return f'({f} {v})', ft
+                fail(n, 'config key')
+            if t == 'ival':                                                                               # G1
+                k = const_int(n.slice)
+                if k not in (0, 1):
+                    fail(n, 'interval index')
+                return f'({"fst" if k == 0 else "snd"} {v})', 'Q'
+            if t in (('list', 'Z'), 'str'):
+                k, tk = self.expr(n.slice)
+                if tk not in ('Z', 'numZ') or (tk == 'numZ' and const_int(n.slice) is None) or \
+                        (const_int(n.slice) is not None and const_int(n.slice) < 0):
+                    fail(n, f'index of type {tk}')
+                return f'(py_index {v} {self.lit(k, tk, "Z")})', ('char' if t == 'str' else 'Z')
+            fail(n, f'subscript of {t} (a dict lookup is a statement: v = D[k])')
+        if isinstance(n, ast.UnaryOp):
+            if isinstance(n.op, ast.Not):
+                return f'(negb {self.boolean(n.operand)})', 'bool'
+            if isinstance(n.op, ast.USub):
+                v, t = self.expr(n.operand)
+                if conc(t) not in ('Z', 'Q'):
+                    fail(n, f'negation of {t}')
+                if t in ('numZ', 'numQ'):
+                    return f'(- {v})', t
+                return f'(- {v})%{conc(t)}', t
+            fail(n, 'unary op')
+        if isinstance(n, ast.BinOp):
+            return self.binop(n.left, n.op, n.right, n)
+        if isinstance(n, ast.Call):
+            return self.gcall(n)
+        if isinstance(n, ast.SetComp):                                                                    # G8
+            if len(n.generators) != 1:
+                fail(n, 'set comprehension shape')
+            g = n.generators[0]
+            if g.ifs or g.is_async or not isinstance(g.target, ast.Name) or g.target.id in self.vars \
+                    or g.target.id in RESERVED:
+                fail(n, 'set comprehension shape')
+            it, t = self.expr(g.iter)
+            if t != 'str':
+                fail(n, f'set comprehension over {t}')
+            saved = dict(self.vars)
+            self.vars[g.target.id] = 'char'
+            ev, et = self.expr(n.elt)
+            self.vars = saved
+            if et != 'str':
+                fail(n, f'set of {et}')
+            return f'(py_set_of_list (map (fun {g.target.id} => {ev}) {it}) [])', ('set', 'str')
+        if isinstance(n, (ast.Name, ast.BoolOp, ast.Compare, ast.IfExp)):
+            if isinstance(n, ast.IfExp):
+                fail(n, 'conditional expression')
+            return super().expr(n)
+        fail(n, 'expression')
+
+    def binop(self, l, op, r, n):
+        a, ta = self.expr(l)
+        b, tb = self.expr(r)
+        if isinstance(op, ast.Add) and ta == 'str':                                                      # G5
+            if tb == 'char':
+                return f'({a} ++ [{b}])', 'str'
+            if tb == 'str':
+                return f'({a} ++ {b})', 'str'
+            fail(n, f'str + {tb}')
+        t = self.join(ta, tb, n)
+        ct = conc(t)
+        if ct not in ('Z', 'Q'):
+            fail(n, f'arithmetic on {t}')
+        ops = {ast.Add: '+', ast.Sub: '-', ast.Mult: '*'}
+        if type(op) in ops:
+            return f'({a} {ops[type(op)]} {b})%{ct}', ct
+        if isinstance(op, ast.Div):                                                                      # G3
+            if ct != 'Q':
+                fail(n, 'true division of integers')
+            return f'(py_fdiv {self.lit(a, ta, "Q")} {self.lit(b, tb, "Q")})', 'Q'
+        if isinstance(op, (ast.BitAnd, ast.BitOr)):
+            if ct != 'Z':
+                fail(n, f'bit operation on {t}')
+            f = 'Z.land' if isinstance(op, ast.BitAnd) else 'Z.lor'
+            return f'({f} {self.lit(a, ta, "Z")} {self.lit(b, tb, "Z")})', 'Z'
+        fail(n, 'binary op')
+
+    def cmp1(self, l, op, r, n):
+        if isinstance(op, (ast.In, ast.NotIn)):
+            if isinstance(r, ast.Name) and r.id == '_NIEMEYER_CONFIG' and r.id not in self.vars:         # G2
+                k, tk = self.expr(l)
+                s = f'(py_config_has {self.lit(k, tk, "Z")})'
+            else:
+                item, ti = self.expr(l)
+                cont, tc = self.expr(r)
+                if (ti, tc) != ('char', 'str'):
+                    fail(n, f'`in` for {ti} in {tc}')
+                s = f'(py_char_in {item} {cont})'
+            return s if isinstance(op, ast.In) else f'(negb {s})'
+        a, ta = self.expr(l)
+        b, tb = self.expr(r)
+        t = conc(self.join(ta, tb, n))
+        if t == 'Z' and type(op) in CMP_ZS:
+            return CMP_ZS[type(op)].format(a, b)
+        if t == 'Q' and type(op) in CMP_Q:
+            return CMP_Q[type(op)].format(self.lit(a, ta, 'Q'), self.lit(b, tb, 'Q'))
+        fail(n, f'comparison at type {t}')
+
+    def boolean(self, n):
+        v, t = self.expr(n)
+        if t != 'bool':
+            fail(n, f'truthiness of {t}')
+        return v
+
+    def gcall(self, n):
+        f = n.func
+        if isinstance(f, ast.Name) and f.id not in self.vars:
+            args = [self.expr(a) for a in n.args]
+            ats = tuple(t for _, t in args)
+            if f.id == 'GeoBox':                                                                         # G9
+                if ats != ('coord', 'coord') or any(k.arg not in ('dt', 'properties') for k in n.keywords) \
+                        or len({k.arg for k in n.keywords}) != len(n.keywords):
+                    fail(n, 'GeoBox(...) shape')
+                return f'({args[0][0]}, {args[1][0]})', 'gbox'
+            if n.keywords:
+                fail(n, 'keyword arguments')
+            if f.id == 'len' and len(args) == 1 and (ats[0] == 'str' or (isinstance(ats[0], tuple) and ats[0][0] == 'list')):
+                return f'(py_len {args[0][0]})', 'Z'
+            if f.id == 'ord' and ats == ('char',):                                                       # G5
+                return args[0][0], 'Z'
+            if f.id == 'Coordinate' and len(args) == 2 and all(conc(t) == 'Q' for t in ats) and 'mk_coordinate' in self.env.consts:
+                return f'(mk_coordinate {self.lit(args[0][0], ats[0], "Q")} {self.lit(args[1][0], ats[1], "Q")})', 'coord'
+            if (f.id,) + ats in self.env.funcs:
+                fmt, rt = self.env.funcs[(f.id,) + ats]
+                return fmt.format(*[v for v, _ in args]), rt
+            fail(n, f'call {f.id}{ats}')
+        if isinstance(f, ast.Attribute) and f.attr == 'to_float' and not n.args and not n.keywords:      # G4
+            v, t = self.expr(f.value)
+            if t != 'coord':
+                fail(n, f'to_float of {t}')
+            return v, ('tuple', 'Q', 'Q')
+        fail(n, 'call form')
+
+    # ------------------------------------------------------------------ binding
+    def tup(self, names):
+        return names[0] if len(names) == 1 else '(' + ', '.join(names) + ')'
+
+    def tuptype(self, names):
+        return gt(self.vars[names[0]]) if len(names) == 1 else '(' + ' * '.join(gt(self.vars[x]) for x in names) + ')%type'
+
+    def letpat(self, names, value, rest):
+        if len(names) == 1:
+            return f'(let {names[0]} := {value} in {rest})'
+        return f"(let '{self.tup(names)} := {value} in {rest})"
+
+    def bind(self, x, t, state, node):
+        """record that x is (re)bound with type t; checks what a loop / a branch may assign"""
+        t = conc(t)
+        if x in RESERVED or x in self.env.consts:
+            fail(node, f'variable name {x}')
+        if x in self.vars:
+            if x in self.frozen:
+                fail(node, f'a branch assigns {x}, which is neither loop state nor local to the branch')
+            if self.vars[x] != t:
+                fail(node, f'{x} changes type from {self.vars[x]} to {t}')
+        else:
+            self.vars[x] = t
+            self.scope.append(x)
+
+    def simple_lets(self, s, state):
+        """assignment statements without control flow -> list of `let ... in` prefixes (None: not such a statement)"""
+        if isinstance(s, ast.AugAssign):                                                                 # G4
+            if not isinstance(s.target, ast.Name) or s.target.id not in self.vars:
+                fail(s, 'augmented assignment target')
+            v, t = self.binop(ast.Name(id=s.target.id, ctx=ast.Load()), s.op, s.value, s)
+            self.bind(s.target.id, t, state, s)
+            return [f'let {s.target.id} := {v} in']
+        if not isinstance(s, ast.Assign) or len(s.targets) != 1:
+            return None
+        tg, val = s.targets[0], s.value
+        if isinstance(tg, ast.Name):
+            if isinstance(val, ast.Subscript) and not isinstance(val.slice, ast.Slice):
+                try:
+                    _, tv = self.expr(val.value)
+                except Abstain:
+                    tv = None
+                if (isinstance(tv, tuple) and tv[0] == 'dict') or (isinstance(val.value, ast.Name) and val.value.id == '_NIEMEYER_CONFIG'):
+                    return None                      # a lookup that can raise: handled with the control flow
+            v, t = self.expr(val)
+            if t == 'ival':
+                fail(s, 'aliasing of an interval list')
+            if t == 'ival!':
+                t = 'ival'
+            if t in ('numZ', 'numQ'):
+                v = self.lit(v, t, conc(t))
+            self.bind(tg.id, t, state, s)
+            return [f'let {tg.id} := {v} in']
+        if isinstance(tg, ast.Subscript):                                                                # G1
+            if not isinstance(tg.value, ast.Name) or self.vars.get(tg.value.id) != 'ival' or const_int(tg.slice) not in (0, 1):
+                fail(s, 'subscript assignment')
+            x = tg.value.id
+            v, t = self.expr(val)
+            v = self.lit(v, t, 'Q')
+            self.bind(x, 'ival', state, s)
+            return [f'let {x} := ({v}, snd {x}) in' if const_int(tg.slice) == 0 else f'let {x} := (fst {x}, {v}) in']
+        if isinstance(tg, ast.Tuple) and all(isinstance(x, ast.Name) for x in tg.elts):                  # G4
+            names = [x.id for x in tg.elts]
+            if len(set(names)) != len(names):
+                fail(s, 'repeated target')
+            if isinstance(val, ast.Tuple):
+                if len(val.elts) != len(names) or any(nm in names_in(val.elts) for nm in names):
+                    fail(s, 'tuple assignment whose right-hand side mentions a target')
+                out = []
+                for nm, e in zip(names, val.elts):
+                    out += self.simple_lets(ast.Assign(targets=[ast.Name(id=nm, ctx=ast.Store())], value=e, lineno=s.lineno), state)
+                return out
+            v, t = self.expr(val)
+            if isinstance(t, tuple) and t[0] == 'tuple' and len(t) - 1 == len(names):
+                for nm, tt in zip(names, t[1:]):
+                    self.bind(nm, tt, state, s)
+                return [f"let '{self.tup(names)} := {v} in"]
+            if isinstance(t, tuple) and t[0] == 'res':
+                return None
+            fail(s, f'tuple unpacking of {t}')
+        fail(s, 'assignment target')
+
+    def raising_bind(self, s, state):
+        """v = D[k] / config = _NIEMEYER_CONFIG[base] / a, b, c, d = f(..) with f raising
+           -> (scrutinee, none/err branch, pattern) or None"""
+        if not (isinstance(s, ast.Assign) and len(s.targets) == 1):
+            return None
+        tg, val = s.targets[0], s.value
+        if isinstance(tg, ast.Name) and isinstance(val, ast.Subscript):
+            if isinstance(val.value, ast.Name) and val.value.id == '_NIEMEYER_CONFIG' and val.value.id not in self.vars:
+                k, tk = self.expr(val.slice)
+                self.bind(tg.id, 'cfg', state, s)
+                return f'py_config_get {self.lit(k, tk, "Z")}', 'None => {0}(Err KeyError)', f'Some {tg.id}'
+            d, td = self.expr(val.value)
+            if isinstance(td, tuple) and td[0] == 'dict':
+                k, tk = self.expr(val.slice)
+                kk = self.lit(k, tk, td[1])
+                self.bind(tg.id, td[2], state, s)
+                return f'py_dict_get {d} {kk}', 'None => {0}(Err KeyError)', f'Some {tg.id}'
+        if isinstance(tg, ast.Tuple) and all(isinstance(x, ast.Name) for x in tg.elts) and isinstance(val, ast.Call):
+            names = [x.id for x in tg.elts]
+            v, t = self.expr(val)
+            if isinstance(t, tuple) and t[0] == 'res' and isinstance(t[1], tuple) and t[1][0] == 'tuple' \
+                    and len(t[1]) - 1 == len(names) and len(set(names)) == len(names):
+                for nm, tt in zip(names, t[1][1:]):
+                    self.bind(nm, tt, state, s)
+                return v, 'Err e_ => {0}(Err e_)', f'Ok {self.tup(names)}'
+        return None
+
+    def exc_of(self, s):
+        exc = s.exc.func.id if isinstance(s.exc, ast.Call) and isinstance(s.exc.func, ast.Name) else getattr(s.exc, 'id', None)
+        if exc not in EXCS or s.cause is not None:
+            fail(s, 'exception kind')
+        return exc
+
+    # ------------------------------------------------------------------ function level
+    def wrap(self, v):
+        return f'(Some {v})' if self.fuelled else v
+
+    def block(self, stmts):
+        if not stmts:
+            raise Abstain('control reaches the end of the function without return')
+        s, rest = stmts[0], stmts[1:]
+        if isinstance(s, ast.Expr) and isinstance(s.value, ast.Constant) and isinstance(s.value.value, str):
+            return self.block(rest)
+        if isinstance(s, ast.Return):
+            if s.value is None:
+                fail(s, 'bare return')
+            v, t = self.expr(s.value)
+            if not self.raises or t != self.ret[1]:
+                fail(s, f'return of {t} where {self.ret} is declared')
+            return self.wrap(f'(Ok {v})')
+        if isinstance(s, ast.Raise):
+            return self.wrap(f'(Err {self.exc_of(s)})')
+        if isinstance(s, ast.If):
+            if s.orelse or not self.terminates(s.body):
+                fail(s, 'an `if` at function level must end in raise/return and have no else')
+            c = self.boolean(s.test)
+            saved, sc = dict(self.vars), list(self.scope)
+            a = self.block(s.body)
+            self.vars, self.scope = saved, sc
+            return f'(if {c} then {a} else {self.block(rest)})'
+        if isinstance(s, ast.While):
+            return self.while_loop(s, rest)
+        if isinstance(s, ast.For):
+            state, fold, mode = self.for_parts(s)
+            if mode == 'res':
+                return f'(match {fold} with Err e_ => {self.wrap("(Err e_)")} | Ok {self.tup(state)} => {self.block(rest)} end)'
+            return self.letpat(state, fold, self.block(rest))
+        lets = self.simple_lets(s, [])
+        if lets is not None:
+            return '(' + ' '.join(lets) + ' ' + self.block(rest) + ')'
+        rb = self.raising_bind(s, [])
+        if rb is not None:
+            scrut, bad, pat = rb
+            errk = bad.format('Some ' if self.fuelled else '')
+            return f'(match {scrut} with {errk} | {pat} => {self.block(rest)} end)'
+        fail(s, 'statement')
+
+    # ------------------------------------------------------------------ loops
+    def loop_state(self, body, loopvars):
+        asg, tg = assigned_names(body)
+        for x in tg + loopvars:
+            if x in self.vars or x in RESERVED or (tg + loopvars).count(x) > 1:
+                fail(body[0], f'loop variable {x} shadows something')
+        state = [x for x in self.scope if x in asg]
+        if not state:
+            fail(body[0], 'a loop that assigns nothing')
+        return state
+
+    def params_for(self, nodes, exclude):
+        used = names_in(nodes)
+        return [p for p in self.scope if p in used and p not in exclude]
+
+    def binders(self, ps):
+        return ' '.join(f'({p} : {gt(self.vars[p])})' for p in ps)
+
+    def loop_body(self, body, state):
+        """the statements of one iteration -> (term, mode); variables bound inside die with the iteration"""
+        mode = 'res' if any(isinstance(x, ast.Raise) for st in body for x in ast.walk(st)) else 'total'
+        saved, sc, fz = dict(self.vars), list(self.scope), set(self.frozen)
+        term = self.body(body, state, mode)
+        for x in state:
+            if self.vars[x] != saved[x]:
+                fail(body[0], f'state variable {x} changes type')
+        self.vars, self.scope, self.frozen = saved, sc, fz
+        return term, mode
+
+    def body(self, stmts, state, mode):
+        if not stmts:
+            return self.tup(state) if mode == 'total' else f'(Ok {self.tup(state)})'
+        s, rest = stmts[0], stmts[1:]
+        if isinstance(s, ast.Expr) and isinstance(s.value, ast.Constant) and isinstance(s.value.value, str):
+            return self.body(rest, state, mode)
+        if isinstance(s, ast.If):
+            if mode == 'res' and not s.orelse and len(s.body) == 1 and isinstance(s.body[0], ast.Raise):   # G6
+                return f'(if {self.boolean(s.test)} then (Err {self.exc_of(s.body[0])}) else {self.body(rest, state, mode)})'
+            c = self.boolean(s.test)
+            outs = []
+            for br in (s.body, s.orelse):
+                saved, sc, fz = dict(self.vars), list(self.scope), set(self.frozen)
+                self.frozen = self.frozen | {x for x in self.vars if x not in state}
+                outs.append(self.body(br, state, 'total'))
+                for x in state:
+                    if self.vars[x] != saved[x]:
+                        fail(s, f'state variable {x} changes type')
+                self.vars, self.scope, self.frozen = saved, sc, fz
+            return self.letpat(state, f'(if {c} then {outs[0]} else {outs[1]})', self.body(rest, state, mode))
+        if isinstance(s, ast.For):
+            st2, fold, mode2 = self.for_parts(s)
+            for x in st2:
+                if x in self.frozen:
+                    fail(s, f'a loop inside a branch assigns {x}')
+            if mode2 == 'res':
+                if mode != 'res':
+                    fail(s, 'a raising loop inside a non-raising body')
+                return f'(match {fold} with Err e_ => Err e_ | Ok {self.tup(st2)} => {self.body(rest, state, mode)} end)'
+            return self.letpat(st2, fold, self.body(rest, state, mode))
+        if isinstance(s, (ast.While, ast.Return, ast.Raise, ast.Break, ast.Continue)):
+            fail(s, 'statement inside a loop body')
+        lets = self.simple_lets(s, state)
+        if lets is not None:
+            return '(' + ' '.join(lets) + ' ' + self.body(rest, state, mode) + ')'
+        rb = self.raising_bind(s, state)
+        if rb is not None:
+            if mode != 'res':
+                fail(s, 'a lookup that can raise inside a non-raising body')
+            scrut, bad, pat = rb
+            return f'(match {scrut} with {bad.format("")} | {pat} => {self.body(rest, state, mode)} end)'
+        fail(s, 'statement in a loop body')
+
+    def for_parts(self, s):                                                                              # G6
+        if s.orelse or not isinstance(s.target, ast.Name):
+            fail(s, 'for-loop shape')
+        x = s.target.id
+        it, t = self.expr(s.iter)
+        if t == 'str':
+            xt = 'char'
+        elif isinstance(t, tuple) and t[0] == 'list':
+            xt = t[1]
+        else:
+            fail(s, f'iteration over {t}')
+        state = self.loop_state(s.body, [x])
+        if any(v in names_in([s.iter]) for v in state):
+            fail(s, 'the loop assigns a variable its iterable mentions')
+        ps = self.params_for(s.body, state + [x])
+        name = f'{self.spec.gname}_for_{x}'
+        if any(h.startswith(f'Definition {name} ') for h in self.hoisted):
+            fail(s, 'two loops over the same variable name')
+        self.vars[x] = xt
+        self.scope.append(x)
+        term, mode = self.loop_body(s.body, state)
+        self.scope.remove(x)
+        del self.vars[x]
+        ty = self.tuptype(state)
+        rty = f'res {ty}' if mode == 'res' else ty
+        self.hoisted.append(f'Definition {name} {self.binders(ps)} (st : {ty}) ({x} : {gt(xt)}) : {rty} :=\n'
+                            f'  {self.letpat(state, "st", term)}.\n')
+        fn = f'({name} {" ".join(ps)})' if ps else name
+        return state, f'({"py_for_res" if mode == "res" else "fold_left"} {fn} {it} {self.tup(state)})', mode
+
+    def while_loop(self, s, rest):                                                                       # G7
+        if s.orelse:
+            fail(s, 'while-else')
+        if not self.fuelled:
+            fail(s, 'while loop in a function translated without fuel')
+        self.nwhile += 1
+        if self.nwhile > 1:
+            fail(s, 'more than one while loop')
+        state = self.loop_state(s.body, [])
+        pre = self.spec.gname
+        ty = self.tuptype(state)
+        cps = self.params_for([s.test], state)
+        cond = self.boolean(s.test)
+        self.hoisted.append(f'Definition {pre}_cond {self.binders(cps)} (st : {ty}) : bool :=\n'
+                            f'  {self.letpat(state, "st", cond)}.\n')
+        sps = self.params_for(s.body, state)
+        term, mode = self.loop_body(s.body, state)
+        if mode != 'total':
+            fail(s, 'a while body that raises')
+        self.hoisted.append(f'Definition {pre}_step {self.binders(sps)} (st : {ty}) : {ty} :=\n'
+                            f'  {self.letpat(state, "st", term)}.\n')
+        cf = f'({pre}_cond {" ".join(cps)})' if cps else f'{pre}_cond'
+        sf = f'({pre}_step {" ".join(sps)})' if sps else f'{pre}_step'
+        return (f'(match py_while {cf} {sf} fuel {self.tup(state)} with\n   | None => None\n'
+                f'   | Some {self.tup(state)} => {self.block(rest)}\n   end)')
+
+
+def translate_codec_fn(tree, env, spec, fuelled):
+    fd = find_def(tree, spec)
+    a = fd.args
+    pynames = [x.arg for x in a.args]
+    declared = [p for p, _ in spec.params]
+    if pynames[:len(declared)] != declared or a.vararg or a.kwarg or a.kwonlyargs or a.posonlyargs \
+            or len(a.defaults) != len(pynames) - len(declared) or fd.decorator_list:
+        raise Abstain(f'{spec.pyname}: parameters {pynames} do not start with the declared {declared} (the others defaulted)')
+    tr = TrG(env, spec, fuelled)
+    body = tr.block(list(fd.body))
+    params = ' '.join(f'({p} : {gt(t)})' for p, t in spec.params)
+    if fuelled:
+        params = '(fuel : nat) ' + params
+    rt = gt(spec.ret)
+    if fuelled:
+        rt = f'option ({rt})'
+    return '\n'.join(tr.hoisted) + f'Definition {spec.gname} {params} : {rt} :=\n  {body}.\n'
+
+
+def translate_hasher_init(tree, env, spec, fuelled):                                                     # G10
+    fd = find_def(tree, spec)
+    a = fd.args
+    if [x.arg for x in a.args] != ['self', 'length', 'base'] or a.vararg or a.kwarg or a.kwonlyargs or a.defaults or fd.decorator_list:
+        raise Abstain('NiemeyerHasher.__init__: parameters')
+    tr = TrG(env, FnSpec('__init__', spec.gname, [('length', 'Z'), ('base', 'Z')], 'hasher'), False)
+    vals = {}
+    for s in fd.body:
+        if isinstance(s, ast.Expr) and isinstance(s.value, ast.Constant) and isinstance(s.value.value, str):
+            continue
+        if not (isinstance(s, ast.Assign) and len(s.targets) == 1 and isinstance(s.targets[0], ast.Attribute)
+                and isinstance(s.targets[0].value, ast.Name) and s.targets[0].value.id == 'self'):
+            fail(s, 'statement of __init__ that is not `self.<field> = <expr>`')
+        f = s.targets[0].attr
+        if f in vals:
+            fail(s, f'field {f} assigned twice')
+        v, t = tr.expr(s.value)
+        vals[f] = tr.lit(v, t, 'Z')
+    if set(vals) != {'length', 'base'}:
+        raise Abstain(f'NiemeyerHasher.__init__: fields {sorted(vals)} are not exactly base, length')
+    return f'Definition {spec.gname} (length : Z) (base : Z) : hasher :=\n  (mkhasher {vals["length"]} {vals["base"]}).\n'
+
+
+def codec_env(section):
+    e = Env()
+    if section:
+        e.consts['mk_coordinate'] = ('mk_coordinate', 'fn')
+        e.funcs[('_decode_niemeyer', 'str', 'Z')] = ('(g_decode_niemeyer {0} {1})', ('res', ('tuple', 'Q', 'Q', 'Q', 'Q')))
+    return e
+
+
+T4 = ('tuple', 'Q', 'Q', 'Q', 'Q')
+CODEC_PLAN = [
+    (None, None, [
+        (translate_codec_fn, FnSpec('_decode_niemeyer', 'g_decode_niemeyer', [('geohash', 'str'), ('base', 'Z')], ('res', T4)), False),
+        (translate_codec_fn, FnSpec('_coord_to_niemeyer', 'g_coord_to_niemeyer',
+                                    [('coordinate', 'coord'), ('length', 'Z'), ('base', 'Z')], ('res', 'str')), True),
+        (translate_codec_fn, FnSpec('_get_niemeyer_subhashes', 'g_get_niemeyer_subhashes', [('geohash', 'str'), ('base', 'Z')],
+                                    ('res', ('set', 'str'))), False),
+        (translate_hasher_init, FnSpec('__init__', 'g_hasher_init', [], 'hasher', 'NiemeyerHasher'), False),
+    ]),
+    (SEC_GEOBOX, 'End GeoboxGen.\n', [
+        (translate_codec_fn, FnSpec('niemeyer_to_geobox', 'g_niemeyer_to_geobox', [('geohash', 'str'), ('base', 'Z')], ('res', 'gbox')), False),
+    ]),
+]
+
+
+def main_codec(repo, out):
+    rep = {}
+    try:
+        tree = ast.parse(open(os.path.join(repo, 'geostructures/geohash.py')).read())
+    except Exception as ex:   # noqa  fail closed
+        open(out, 'w').write(CODEC_HEADER + f'(* could not parse geohash.py: {type(ex).__name__} *)\n')
+        return {'geohash.py': f'abstained: {type(ex).__name__}'}
+    parts = [CODEC_HEADER]
+    for sec, end, specs in CODEC_PLAN:
+        if sec:
+            parts.append(sec)
+        e = codec_env(bool(sec))
+        for fn, sp, fuelled in specs:
+            try:
+                parts.append(fn(tree, e, sp, fuelled))
+                rep[sp.gname] = 'translated'
+            except Abstain as ex:
+                parts.append(f'(* ABSTAINED {sp.gname}: {str(ex).replace("*)", "* )").replace("(*", "( *")} *)\n')
+                rep[sp.gname] = f'abstained: {ex}'
+            except Exception as ex:   # noqa  fail closed on anything unexpected
+                parts.append(f'(* ABSTAINED {sp.gname}: internal {type(ex).__name__} *)\n')
+                rep[sp.gname] = f'abstained: internal {type(ex).__name__}: {ex}'
+        if end:
+            parts.append(end)
+    open(out, 'w').write('\n'.join(parts))
+    return rep
+
+
 if __name__ == '__main__':
-    print(main(sys.argv[1], sys.argv[2]))
+    if len(sys.argv) > 3 and sys.argv[3] == 'codec':
+        for k, v in main_codec(sys.argv[1], sys.argv[2]).items():
+            print(k, '::', v)
+    else:
+        print(main(sys.argv[1], sys.argv[2]))
